@@ -258,9 +258,10 @@ Fixpoint dedup_ty (l : list ty) : list ty :=
   end.
 
 (* s_casts.find_common_castable_type.  The real code iterates over a Python set of target
-   types; the model takes them in table order and returns the first candidate
-   ([Proofs.common_order_independent] shows the choice is immaterial for the table). *)
-Fixpoint common_castable (fuel : nat) (source target : ty) : option ty :=
+   types; the model takes them in table order ([ord] = identity) and returns the first
+   candidate; Props.C12_std_common_order_independent checks on the generated table that other
+   iteration orders give the same answer. *)
+Fixpoint common_castable_g (ord : list ty -> list ty) (fuel : nat) (source target : ty) : option ty :=
   if (0 <=? sc_cast_dist target source)%Z then Some source
   else if (0 <=? sc_cast_dist source target)%Z then Some target
   else
@@ -271,14 +272,14 @@ Fixpoint common_castable (fuel : nat) (source target : ty) : option ty :=
            match n with
            | O => None
            | S n' =>
-               let targets := dedup_ty (map c_to (casts_from target true)) in
+               let targets := ord (dedup_ty (map c_to (casts_from target true))) in
                match targets with
                | [] => None
                | [t] => if (0 <=? sc_cast_dist source t)%Z then Some t else climb n' t
                | _ => (fix first (l : list ty) : option ty :=
                          match l with
                          | [] => None
-                         | t :: l' => match common_castable fuel' source t with
+                         | t :: l' => match common_castable_g ord fuel' source t with
                                       | Some c => Some c
                                       | None => first l'
                                       end
@@ -286,6 +287,8 @@ Fixpoint common_castable (fuel : nat) (source target : ty) : option ty :=
                end
            end) cast_fuel target
     end.
+
+Definition common_castable := common_castable_g (fun l => l).
 
 (* ScalarType.get_implicit_cast_distance etc. (types.py / scalars.py) *)
 Fixpoint cast_dist (a p : ty) {struct a} : Z :=
